@@ -151,6 +151,7 @@ type Style struct {
 	Comment    []byte // text of a user comment (# ...) put on its own line before every property / element line and at the end of lines without annotation
 	Block      bool   // the user comment is a ### block ### on its own line
 	Pad        []byte // blanks inside the rule object after '{' and before '}'
+	Tail       []byte // text of a user comment appended (as " #text") to every line that carries an inline annotation
 }
 
 var curStyle Style
@@ -226,6 +227,10 @@ func annotationS(e *Ex, st *Style) []byte {
 			a.s(" ")
 		}
 		a.bs(e.Note)
+	}
+	if st.Tail != nil {
+		a.s(" #")
+		a.bs(st.Tail)
 	}
 	return a.b
 }
